@@ -10,7 +10,7 @@ PKGS=". ./vfs/memfs ./vfs/orefafs ./vfs/rofs ./vfs/basepathfs ./vfs/failfs ./idm
 for D in "$@"; do
   N=$(basename $D)
   cd $WT && git checkout -q -- . && git clean -fdq
-  RUN=$(grep -v '^#' $D/RUN.txt | grep -E "go (test|run)" | head -1)
+  RUN=$(grep -v "^#" $D/RUN.txt | grep -E "go (test|run)" | head -1 | sed "s/^ *cd [^&]*&& *//")
   PKGDIR=$(echo "$RUN" | awk '{print $NF}')
   case "$PKGDIR" in ./*) DEST="${PKGDIR#./}/zz_demo_test.go";; *) DEST="zz_demo_test.go";; esac
   DEMO=$(ls $D/*_test.go 2>/dev/null | head -1)
